@@ -311,7 +311,7 @@ def run(chk, prog):
                       % (f_["name"], "reads" if kind == "read" else "updates", fld, "".join("[%s]" % s_ for s_ in subs), sorted(carried[fld]),
                          "" if pre else " -- NO such store: the value seen is the one an earlier request left"),
                       "%s:carried:%s" % (f_["name"], fld))
-    chk.floor("R4-members-written-outside-construction", len(carried), 2)
+    chk.floor("R4-members-written-outside-construction", len(carried), 1)
     chk.ok("R4", "src/PS/ElectricField.cpp", "%d reads of %d members that are written outside construction examined" % (n4, len(carried)))
     if memo_hits:
         raise AnalysisBroken("ElectricField keeps a table keyed on a request parameter (%s): whether the cached and the recomputed table agree for every "
